@@ -24,17 +24,12 @@ Qed.
 (* a rejected call changes nothing at all: no status, no stored change *)
 Theorem rejected_call_is_noop s call : fst (lstep s call) = false -> snd (lstep s call) = s.
 Proof.
-  destruct call as [c|c|c d|c d n|c d n|c d n]; cbn [lstep]; try discriminate;
+  destruct call as [c|c|c d n|c d n|c d n|c d n|c d n]; cbn [lstep]; try discriminate;
     destruct (aget (l_clients s) c) as [x|]; try reflexivity;
-    try (destruct (lc_active x); cbn; [discriminate|reflexivity]).
-  - destruct (lc_active x); [|reflexivity].
-    destruct (dstatus_eqb _ DAttached); [reflexivity|discriminate].
-  - destruct (find_doc (lc_docs x) d) as [dd|]; [|reflexivity].
-    destruct (lc_active x && dstatus_eqb (ld_status dd) DAttached); [discriminate|reflexivity].
-  - destruct (find_doc (lc_docs x) d) as [dd|]; [|reflexivity].
-    destruct (lc_active x && attached_like (ld_status dd)); [discriminate|reflexivity].
-  - destruct (find_doc (lc_docs x) d) as [dd|]; [|reflexivity].
-    destruct (lc_active x && attached_like (ld_status dd)); [discriminate|reflexivity].
+    try (destruct (find_doc (lc_docs x) d) as [dd|]; try reflexivity);
+    repeat match goal with
+           | |- context [if ?b then _ else _] => destruct b; cbn [fst snd]; try discriminate; try reflexivity
+           end.
 Qed.
 
 Lemma find_set_doc l x d : find_doc (set_doc l x) d = if N.eqb (ld_key x) d then Some x else find_doc l d.
@@ -84,7 +79,7 @@ Theorem deactivated_client_is_out s c :
   client_active s' c = false /\
   (forall d g st, doc_status s' c d = Some (g, st) -> attached_like st = false) /\
   (forall d n, fst (lstep s' (LPushPull c d n)) = false /\ fst (lstep s' (LDetach c d n)) = false /\
-               fst (lstep s' (LRemove c d n)) = false /\ fst (lstep s' (LAttach c d)) = false).
+               fst (lstep s' (LRemove c d n)) = false /\ fst (lstep s' (LAttach c d n)) = false).
 Proof.
   cbn [lstep]. destruct (aget (l_clients s) c) as [x|] eqn:Ec; [|discriminate].
   destruct (lc_active x) eqn:Ea; [|discriminate]. intros _. cbn zeta. cbn [snd].
@@ -114,20 +109,18 @@ Proof.
   assert (G : forall s', l_removed s' = l_removed s \/ (exists x, l_removed s' = x :: l_removed s) -> is_removed s' d g = true).
   { intros s' [E|[x E]]; unfold is_removed in *; rewrite E; [exact H|]. cbn [existsb]. now rewrite H, orb_true_r. }
   apply G.
-  destruct call as [c|c|c d'|c d' n|c d' n|c d' n]; cbn [lstep snd set_client l_removed];
+  destruct call as [c|c|c d' n|c d' n|c d' n|c d' n|c d' n]; cbn [lstep];
     try (left; reflexivity);
     destruct (aget (l_clients s) c) as [x|]; try (left; reflexivity);
-    try (destruct (lc_active x); try (left; reflexivity));
-    try (destruct (dstatus_eqb _ DAttached); left; reflexivity);
     try (destruct (find_doc (lc_docs x) d') as [dd|]; try (left; reflexivity));
-    try (cbn [andb]; destruct (dstatus_eqb (ld_status dd) DAttached); left; reflexivity);
-    try (cbn [andb]; destruct (attached_like (ld_status dd)); [|left; reflexivity]).
-  - left. reflexivity.
-  - right. eexists. reflexivity.
+    repeat match goal with
+           | |- context [if ?b then _ else _] => destruct b; cbn [fst snd l_removed set_client]
+           end;
+    try (left; reflexivity); try (right; eexists; reflexivity).
 Qed.
 
 Example lifecycle_example :
-  let calls := [LActivate 0; LAttach 0 0; LPushPull 0 0 1; LDetach 0 0 1; LPushPull 0 0 1; LAttach 0 0; LRemove 0 0 0; LAttach 0 0]%N in
+  let calls := [LActivate 0; LAttach 0 0 0; LPushPull 0 0 1; LDetach 0 0 1; LPushPull 0 0 1; LAttach 0 0 0; LRemove 0 0 0; LAttach 0 0 0]%N in
   map (fun k => fst (lstep (lrun empty_lstate (firstn k calls)) (nth k calls (LActivate 9%N)))) (seq 0 8)
   = [true; true; true; true; false; true; true; true] /\
   cur_gen (lrun empty_lstate calls) 0%N = 1%N.
